@@ -336,6 +336,7 @@ def run(ctx):
     r4(ctx)
     r5(ctx)
     r6(ctx)
+    C02.r3(ctx)   # the crashed host's FIN is remembered as EOF on both read paths (read and peek): a peer is unblocked for good
     C02.r2(ctx)   # R4: FIN on drop unless shut down
     C02.r7(ctx)   # R4: RST only for unread data
     C02.r4(ctx)   # the crashed sender's FIN fits the peer's receive queue
